@@ -432,6 +432,14 @@ def _reaches_here(repo, f, fd: FlowDeps, deps: Deps, py, callee, formal, value_t
         return False, f"does not control any call of {formal}"
     calls = _calls_named(f.node, callee)
     if not calls:
+        # the option may go to ANOTHER function of the library module the contract's callee lives in (a new entry point doing the
+        # same work): which parameter of that function means what is not in the contract table -- not decidable here
+        rel_c = CALLEES.get(callee, (None, None))[0]
+        for c in A.calls_in(f.node):
+            nm = A.dotted(c.func) or ""
+            kind, g = repo.resolve_name(f.module, nm) if nm else (None, None)
+            if kind == "func" and g.relpath == rel_c and g.cls is None and any(fd.depends_on(a, py, at=fd.stmt_of.get(id(c))) for a in list(c.args) + [k.value for k in c.keywords]):
+                return None, f"`{py}` is handed to {nm}(...), another function of {rel_c} than the documented {callee}(...): extend the contract table to decide it"
         return False, f"no call of {callee} in the command"
     rel, qual = CALLEES[callee]
     target = repo.func(rel, qual)
